@@ -5,6 +5,39 @@ import os
 import vf
 
 
+def bitmap_extra(chk, binpath, d, tier):
+    """Growth beyond the statement: WHICH image a binary PBM (P4) file denotes (PnmBitmap.tla: rows padded to
+    whole bytes).  Every file TLC enumerates is decoded by the real parse_pnm; rejections are notes, never alarms."""
+    import collections
+    cons = {"Export": "TRUE", "Wide": "TRUE" if tier == "thorough" else "FALSE"}
+    cfg = vf.write_cfg(os.path.join(d, "MC_PnmBitmap.cfg"), cons, invariants=["Laws", "ExportInv"])
+    r = vf.tlc("MC_PnmBitmap", cfg, workers=8, gc="parallel", heap="4g")
+    chk.add_mc("MC_PnmBitmap (extra coverage)", r, cons)
+    cases = os.path.join(d, "bitmap_cases.ndjson")
+    n = 0
+    with open(cases, "w") as f:
+        for ln in r.prints:
+            t = vf.parse_print(ln)
+            if t and t[0] == "REPLAY":
+                bs = json.loads(t[1])["bytes"]
+                f.write(json.dumps({"k": "b%d" % n, "op": "parse", "via": "parse_pnm", "bytes": bs}, separators=(",", ":")) + "\n")
+                # the same file cut one byte short, and with a comment and CRLF in the header
+                f.write(json.dumps({"k": "b%dt" % n, "op": "parse", "via": "read_pnm", "bytes": bs[:-1]}, separators=(",", ":")) + "\n")
+                if n % 7 == 0:
+                    f.write(json.dumps({"k": "b%dc" % n, "op": "parse", "via": "read_trickle",
+                                        "bytes": bs[:2] + [10, 35, 32, 120, 10] + bs[3:]}, separators=(",", ":")) + "\n")
+                n += 1
+    vf.run_harness(binpath, ["pnm", "exec", cases], stdout_path=cases + ".trace")
+    nrec, nev, bad = vf.validate_trace("TV_PnmBitmap", cases + ".trace", jvms=8)
+    why = collections.Counter(str(b["info"][0]) for b in bad)
+    vf.log("[tv] P4 bitmaps: %d calls judged by TV_PnmBitmap: %d rejected %s" % (nrec, len(bad), dict(why)))
+    for w, c in why.items():
+        ex = next(b for b in bad if str(b["info"][0]) == w)
+        chk.note("extra-coverage: %d P4 calls rejected (%s), e.g. %s -> %s" % (c, w, ex["key"], str(ex["info"][1])[:160]))
+    chk.cov.setdefault("extra_coverage", {}).update({"p4_files_replayed": n, "p4_calls_validated": nrec,
+                                                     "p4_rejected_by_clause": dict(why)})
+
+
 def run(tier):
     chk = vf.Check("C13", tier)
     binpath = vf.build_harness()
@@ -47,6 +80,7 @@ def run(tier):
     plain = vf.build_harness("plain")
     vf.exec_and_validate(chk, plain, "pnm", "TV_Pnm", rnd, jvms=10, what="call (plain release build)")
     chk.cov["distinct_nontrivial"] = chk.cov["traces_validated_against_impl"]
+    bitmap_extra(chk, binpath, d, tier)
     chk.cov["trusted_base"] = ["TLC + CommunityModules (Json, IOUtils)", "harness/src/pnm.rs recorder"]
     chk.assumptions = ["maxval 255 only for exact decoding; other maxvals, P4, VT as whitespace and '#' adjacent "
                        "to a token are only checked for totality and dims/count coherence",
